@@ -52,6 +52,16 @@ fn child_main(spec: &RunSpec, replay: Option<(Vec<u32>, Vec<u32>)>) -> ! {
         Some((w, s)) => ChooserMode::Replay { w, wi: 0, s, si: 0 },
         None => ChooserMode::Prng(Rng::new(mix(&[spec.seed, props::prop_hash(spec.prop.id), spec.run]))),
     };
+    // the registry's global HashMap takes its hasher keys from the thread that first touches the
+    // registry; do that on a fresh thread (fresh, deterministic keys) so that its iteration and drop
+    // order is the same in every run, worker and replaying process
+    crate::getrandom_state::reset();
+    #[allow(deprecated)]
+    std::thread::spawn(|| {
+        signal_hook_registry::unregister_signal(0x7fff_0000);
+    })
+    .join()
+    .ok();
     sim::init(mode);
     // C03 is about every built-in action and every interrupted operation: a third of its seeded
     // runs use the iterator engine (consumer calls interrupted by nested deliveries, channel
@@ -64,6 +74,11 @@ fn child_main(spec: &RunSpec, replay: Option<(Vec<u32>, Vec<u32>)>) -> ! {
     if spec.prop.id == "C05" && spec.run % 3 == 2 {
         crate::regsim::run(spec);
     }
+    // C12's "every registration it made has been removed" also under two handles adding the same
+    // signal concurrently and with close()/deliveries around: a quarter of its runs use itersim
+    if spec.prop.id == "C12" && spec.run % 4 == 3 {
+        crate::itersim::run(spec);
+    }
     match spec.prop.engine {
         Engine::Reg => crate::regsim::run(spec),
         Engine::Chan => crate::chansim::run(spec),
@@ -73,6 +88,8 @@ fn child_main(spec: &RunSpec, replay: Option<(Vec<u32>, Vec<u32>)>) -> ! {
 }
 
 const WATCHDOG_MS: i32 = 10_000;
+/// C13's only legitimate long wait is a wake that blocks; its correct runs take milliseconds
+const WATCHDOG_C13_MS: i32 = 3_000;
 
 /// Fork one simulated process, wait for it, classify the outcome.
 pub fn run_one(spec: &RunSpec, replay: Option<(Vec<u32>, Vec<u32>)>) -> RunResult {
@@ -92,7 +109,7 @@ pub fn run_one(spec: &RunSpec, replay: Option<(Vec<u32>, Vec<u32>)>) -> RunResul
         let pidfd = libc::syscall(libc::SYS_pidfd_open, pid, 0) as i32;
         if pidfd >= 0 {
             let mut p = libc::pollfd { fd: pidfd, events: libc::POLLIN, revents: 0 };
-            let r = libc::poll(&mut p, 1, WATCHDOG_MS);
+            let r = libc::poll(&mut p, 1, if spec.prop.id == "C13" { WATCHDOG_C13_MS } else { WATCHDOG_MS });
             if r == 0 {
                 timed_out = true;
                 libc::kill(pid, libc::SIGKILL);
@@ -101,7 +118,14 @@ pub fn run_one(spec: &RunSpec, replay: Option<(Vec<u32>, Vec<u32>)>) -> RunResul
         }
         libc::waitpid(pid, &mut status, 0);
     }
-    classify(shm::get(), status, timed_out)
+    let mut r = classify(shm::get(), status, timed_out);
+    // a violation of another property than the one being checked is not this check's to report
+    if let Verdict::Violation { prop, oracle, msg } = &r.verdict {
+        if prop != spec.prop.id {
+            r.verdict = Verdict::Foreign { prop: prop.clone(), oracle: oracle.clone(), msg: msg.clone() };
+        }
+    }
+    r
 }
 
 fn sigs(b: &[u8]) -> String {
@@ -135,7 +159,7 @@ fn classify(sh: &Shm, status: i32, timed_out: bool) -> RunResult {
     if timed_out {
         let hp = sigs(&sh.hang_prop);
         if !hp.is_empty() {
-            return mk(viol(hp, "hang", format!("the simulated process hung (watchdog {} ms) at progress marker {}", WATCHDOG_MS, sh.progress)));
+            return mk(viol(hp, "hang", format!("the simulated process hung (watchdog) at progress marker {}", sh.progress)));
         }
         return mk(Verdict::Harness(format!("watchdog: child hung at progress {}", sh.progress)));
     }
@@ -563,6 +587,31 @@ pub fn cmd_one(id: &str, tier: &str, seed: u64, run: u64) -> i32 {
     0
 }
 
+/// Debugging aid: run one run in PRNG mode and again replaying its own trace; print the first
+/// differing event.
+pub fn cmd_detdiff(id: &str, tier: &str, seed: u64, run: u64) -> i32 {
+    let prop = props::find(id);
+    let tier = Tier::parse(tier);
+    shm::create();
+    let spec = RunSpec { prop, tier, seed, run };
+    let dump = |sh: &Shm| -> Vec<String> { sh.events().iter().map(|e| format!("step {} T{} d{} {} a={:#x} b={:#x}", e.step, e.tid, e.depth, crate::util::ev_name(prop, e.kind), if e.b == u64::MAX { 0 } else { e.a }, e.b)).collect() };
+    let a = run_one(&spec, None);
+    let ea = dump(shm::get());
+    let (w, s) = copy_trace();
+    let b = run_one(&spec, Some((w, s)));
+    let eb = dump(shm::get());
+    println!("{}\n{}", a.fingerprint(), b.fingerprint());
+    for i in 0..ea.len().min(eb.len()) {
+        if ea[i] != eb[i] {
+            for j in i.saturating_sub(12)..(i + 6).min(ea.len()).min(eb.len()) {
+                println!("{} | {}{}", ea[j], eb[j], if ea[j] != eb[j] { "   <<<" } else { "" });
+            }
+            break;
+        }
+    }
+    0
+}
+
 pub fn cmd_determinism(id: &str, tier: &str, n: u64) -> i32 {
     let prop = props::find(id);
     let tier = Tier::parse(tier);
@@ -573,11 +622,24 @@ pub fn cmd_determinism(id: &str, tier: &str, n: u64) -> i32 {
     for i in 0..n {
         let run = if n >= total { i } else { i * (total / n) };
         let spec = RunSpec { prop, tier, seed, run };
+        let dump = |path: &str| {
+            let sh = shm::get();
+            let v: Vec<String> = sh.events().iter().map(|e| format!("step {} T{} d{} {} a={:#x} b={:#x}", e.step, e.tid, e.depth, crate::util::ev_name(prop, e.kind), if e.b == u64::MAX { 0 } else { e.a }, e.b)).collect();
+            std::fs::write(path, v.join("\n")).ok();
+        };
         let a = run_one(&spec, None).fingerprint();
+        dump("/tmp/det-a.txt");
         let (w, s) = copy_trace();
+        // perturb the parent's heap and fd table so that a dependence on addresses or descriptor
+        // numbers inherited from the parent would show
+        let junk: Vec<Vec<u8>> = (0..(i % 7 + 1)).map(|k| vec![0u8; 24 + 40 * k as usize + (i as usize % 13) * 8]).collect();
+        std::mem::forget(junk);
         let b = run_one(&spec, None).fingerprint();
         // and the recorded trace replays to the same fingerprint
         let c = run_one(&spec, Some((w, s))).fingerprint();
+        if a != c {
+            dump("/tmp/det-c.txt");
+        }
         if a != b || a != c {
             bad += 1;
             println!("NONDETERMINISM {} run {}:\n  {}\n  {}\n  {}", id, run, a, b, c);
